@@ -4,7 +4,9 @@ import json, sys
 pid = sys.argv[1]
 rnd = sys.argv[2] if len(sys.argv) > 2 else ""
 wt = "/tmp/seed%s_%s" % (rnd, pid)
-n1, n2 = (1, 2) if not rnd else (3, 4)
+n1, n2 = {"": (1, 2), "2": (3, 4), "3": (5, 6)}.get(rnd, (7, 8))
+extra4 = " Prefer defects that need state carried across several steps to show (call frames, the value stack, jump tables filled by earlier builds, interning, growth of a table, an earlier token influencing a later one), or that appear on only one of the two data implementations, or only for values at a representation boundary (i32 limits, multi-byte characters, empty containers, u64::MAX symbols, subnormal floats). Avoid the single most obvious function for this property."
+extra = "" if rnd in ("", "2") else extra4 if rnd == "4" else " Stay away from the single most obvious function for this property: choose sites at least one call level away from it (helpers, trait implementations in the data crates, iterators, conversions, table construction, bookkeeping of the builder or parser state), or interactions between two crates."
 p = [json.loads(l) for l in open("/verif/properties.jsonl") if json.loads(l)["id"] == pid][0]
 print(f"""You are testing how robust a Rust code base is against subtle regressions. You work ONLY inside the scratch git worktree {wt} (a checkout of the repository garnish-lang/garnish-core: a scripting-language core with a hand-written lexer (compiler/src/lex), a precedence parser (compiler/src/parse), an instruction builder (compiler/src/build), a stack runtime (runtime/src) generic over a data trait (traits/src) and two data implementations (data/src: SimpleGarnishData in simple.rs/runtime.rs, BasicGarnishData under basic/)). Do not read or write anything under /verif or /repo, and do not use the network (run cargo with --offline).
 
@@ -14,7 +16,7 @@ This semantic property of the code base is supposed to hold:
   {p['statement']}
   (It quantifies over: {p['quantifier']['text']})
 
-Your task: produce TWO different, independent source changes (different mechanisms / different sites) to the repository, each of which BREAKS this property while (a) the workspace still compiles and (b) the existing test suite still passes exactly as before (run `cargo test --workspace --offline 2>&1 | grep -E "^test result|FAILED"` before and after in the worktree: the same tests must pass; about 39 tests already fail upstream, that set must not change). Prefer changes that look like plausible maintenance mistakes or refactorings, and that need something specific to manifest — an unusual input, a particular combination of operand types or values, a multi-step sequence, two cooperating sites that each look fine alone, a boundary value — rather than ones any ordinary use would expose at once. Do not edit or delete existing tests.
+Your task: produce TWO different, independent source changes (different mechanisms / different sites) to the repository, each of which BREAKS this property while (a) the workspace still compiles and (b) the existing test suite still passes exactly as before (run `cargo test --workspace --offline 2>&1 | grep -E "^test result|FAILED"` before and after in the worktree: the same tests must pass; about 39 tests already fail upstream, that set must not change). Prefer changes that look like plausible maintenance mistakes or refactorings, and that need something specific to manifest — an unusual input, a particular combination of operand types or values, a multi-step sequence, two cooperating sites that each look fine alone, a boundary value — rather than ones any ordinary use would expose at once. Do not edit or delete existing tests.{extra}
 
 For EACH of the two changes deliver, under {wt}/out/<n>/ (n = {n1}, {n2}):
   - patch.diff   : `git diff` of the change against the worktree's HEAD (source files only; applies with `git apply`)
